@@ -64,4 +64,7 @@ def run(tier):
     ck.assumptions += ['the grammar file is the specification: the four routes are compared with each other (differential execution) and the bootstrap '
                        "parser's executions are validated against PegMachine instantiated with the grammar file; regular expressions and whitespace/comment "
                        'skipping enter the specification as oracle tables computed with Python re; per-production coverage is by construction of the corpus']
+    # history independence over a pool of public-API calls: every response must be the one the call gets alone in a fresh interpreter
+    from .. import historypool as _hp
+    _hp.check_pool(ck, _hp.pool_c15(), 'accept / reject of a grammar text after calls with other arguments', spec='C15 (the decision is a function of the grammar text and the arguments)', orders=2 if tier == 'quick' else 6)
     return ck.finish()
